@@ -1500,7 +1500,7 @@ def correspond(ctx):
     # the accessor matrix first (fixed histories, a few operations each)
     nmat = 0
     for name, ops in matrix_histories(rng):
-        if name.startswith('names:'):       # the creation matrix: the model follows everything but the DataFrame / len / str reads
+        if name.startswith(('names:', 'tables:extend')):   # the model follows everything but the DataFrame / len / str reads
             ops = [op for op in ops if op['op'] not in SEARCH_ONLY]
         if any(op['op'] in SEARCH_ONLY or op.get('aid') == 'both' for op in ops):
             continue        # DataFrames, len/str and the index+a_id refusal are not operations of the model
@@ -3165,6 +3165,19 @@ def matrix_tables(rng):
             {'op': 'geti', 'o': 'a0', 'ix': ['S', 1, 4, 2], 'id': 3}, {'op': 'df', 'o': 'a3'},
             {'op': 'ixget', 's': 's1', 'ix': ['L', [3, 0]], 'id': 4}, {'op': 'sdf', 's': 's4', 'scale': False},
             {'op': 'sdf', 's': 's4', 'scale': True}]))
+    # ---- extension by a donor whose donor-only string property has a SHORT first entry (dtype of the column = dtype of the
+    #      donor's array, not of its first element), and by a donor-only tensor; through Atoms.extend and atoms_extend
+    base = {'op': 'new', 'id': 0, 'atype': lit('i', [n], [1, 2, 1, 3]), 'pos': gen_lit(rng, 'f', [n, 3]),
+            'extra': [['p0', gen_lit(rng, 'i', [n])]]}
+    mksys = {'op': 'mksys', 'o': 'a0', 'id': 1, 'box': box, 'pbc': [True, False, True], 'symbols': ['Al', 'Cu', 'Ni']}
+    donor = {'op': 'new', 'id': 2, 'atype': lit('i', [3], [2, 1, 4]), 'pos': gen_lit(rng, 'f', [3, 3]),
+             'extra': [['p2', lit('s', [3], ['a', 'xyz', 'Fe'], 3)], ['p4', lit('f', [3, 3, 3], [float(i) / 2 for i in range(27)])],
+                       ['p0', gen_lit(rng, 'i', [3])]]}
+    out.append(('tables:extend-donor-only', [
+        base, mksys, donor, {'op': 'exta', 'o': 'a0', 'src': 'a2', 'id': 3}, {'op': 'pget', 'o': 'a3', 'key': 'p2', 'ix': None},
+        {'op': 'df', 'o': 'a3'}, {'op': 'sext', 's': 's1', 'value': ['a', 'a2'], 'scale': False, 'symbols': None, 'id': 4},
+        {'op': 'spget', 's': 's4', 'key': 'p2', 'ix': None}, {'op': 'sdf', 's': 's4', 'scale': True},
+        {'op': 'exta', 'o': 'a2', 'src': 'a0', 'id': 5}, {'op': 'pget', 'o': 'a5', 'key': 'p2', 'ix': None}]))
     return out
 
 
